@@ -256,7 +256,7 @@ impl Property for C01 {
         gen.relatives = ctx.ch.chance(1, 2);
         // size-dependent paths: every 16th run carries payloads beyond 64 KiB; in thorough every
         // 40th run has a threshold above 256 (needs as many clients)
-        if ctx.ch.chance(1, 16) {
+        if ctx.ch.chance(1, 24) {
             gen.meas_lens = vec![11, 70_000];
             gen.aux_kinds = vec![-1, 4, 66_000];
             gen.max_clients_total = 24;
